@@ -40,7 +40,8 @@ def arm_table(F, b):
             continue
         others = [x for v, x in tg.items() if x != tb] + [t["otherwise"]]
         region = b.reachable(tb, avoid=[i])
-        mine = [c for c in recs if c.bb in region and not any(c.bb in b.reachable(o, avoid=[i]) for o in others if o != tb)]
+        # (a record call that several arms share - hoisted below the match - is each of those arms' record call)
+        mine = [c for c in recs if c.bb in region]
         ent = []
         for c in mine:
             cnt = "1(record)"
@@ -289,6 +290,13 @@ def run(ctx):
                 if c.name != "record_many":
                     continue
                 vo, co = pr_.operand(c.args[1]), (op_const(c.args[2]) or {})
+                if b.name == "record_many" and b.arg_count >= 3:
+                    # a forwarding implementation (a view over another strategy): value and count are passed on as they came
+                    cnt_o = pr_.operand(c.args[2])
+                    ctx.check(any(x[0] == "arg" and x[1] == 2 for x in vo) and {x for x in cnt_o if x[0] != "via"} == {("arg", 3, ())} and exactly_once(b, [c.bb])[0],
+                              "R11.1", fnkey(b) + "#record_many-forwarded-unchanged", loc(b, c.bb),
+                              "a strategy that forwards record_many to another one does not pass (value, count) on unchanged, exactly once")
+                    continue
                 ctx.check(any(x[0] == "arg" and x[1] == 2 for x in vo) and co.get("int") == 1, "R11.1", fnkey(b) + "#record-is-record_many(value, 1)", loc(b, c.bb),
                           "`record(value)` does not forward to `record_many(value, 1)`: a scalar observation would be counted %s times" % co.get("int", "a computed number of"),
                           "record(v) = record_many(v, 1)")
@@ -482,7 +490,30 @@ def run(ctx):
     sm0 = [b for b in F.all_bodies(AG) if b.name == "drain" and b.impl and "AggregationStrategy" in (b.impl.get("trait") or "") and any(c.name in SORTS for c in b.calls())]
     # the run merging may be written as a loop of the drain or inside a closure of it (`fold`)
     sm = [(d, u) for d in sm0 for u in [d] + list(F.closures_of(d)) if any(c.name in BUMPS for c in u.calls())]
-    ctx.floor("R11.3", "sort-and-merge drain", len(sm), 1)
+    # ... or as `chunk_by(|a, b| a == b)` over the sorted values: the grouping predicate is the merge decision
+    grouped = []
+    for d in sm0:
+        for c in d.calls():
+            if c.name in ("chunk_by", "chunk_by_mut", "dedup_by", "group_by"):
+                for cb in closure_args(F, c):
+                    grouped.append((d, cb))
+    ctx.floor("R11.3", "sort-and-merge drain", len(sm) + len(grouped), 1)
+    for d0, cb in grouped:
+        prg = Prov(cb, adapter_pred=lambda t: (t.get("callee") or {}).get("name") in ("deref",))
+        decided = None
+        for i_ in cb.live_blocks():
+            for s_ in cb.stmts(i_):
+                if s_["k"] == "assign" and s_["rv"]["k"] == "binop" and s_["rv"]["op"] in ("Eq", "Ne", "Lt", "Le", "Gt", "Ge"):
+                    o = prg.operand(s_["rv"]["a"]) | prg.operand(s_["rv"]["b"])
+                    arith = sorted({x[1] for x in o if x[0] == "op" and x[1] in ("Sub", "Add", "Div", "Mul")} | {
+                        (cb.term(x[1]).get("callee") or {}).get("name") for x in o if x[0] == "call" and (cb.term(x[1]).get("callee") or {}).get("name") in ("abs", "abs_sub", "round", "floor", "ceil", "trunc")})
+                    decided = (s_["rv"]["op"], arith, {x[1] for x in o if x[0] == "arg"})
+        for c in cb.calls():
+            if c.name in ("eq", "total_cmp", "cmp", "is_eq") and len(c.args) >= 2:
+                decided = ("Eq", [], {x[1] for a_ in c.args for x in prg.operand(a_) if x[0] == "arg"})
+        okg = decided is not None and decided[0] == "Eq" and not decided[1] and len(decided[2]) >= 2
+        ctx.check(okg, "R11.3", fnkey(d0) + "#merges-on-exact-equality", loc(cb),
+                  "sort-and-merge groups observations by something else than exact equality of neighbouring values (%s): distinct recorded values would be reported as one" % (decided,))
     for d0, b in sm:
         pr = Prov(b)
         bumps = [c for c in b.calls() if c.name in BUMPS]
@@ -524,8 +555,48 @@ def run(ctx):
     ctx.check(any("AtomicExponential" in u for u in users) and any("ExponentialAggregationStrategy" in u and "Atomic" not in u for u in users), "R11.2", "exponential-strategies#same-bucket-configuration", "",
               "atomic and non-atomic strategies are not both configured by default_histogram_config(): %s" % users, "users: %d" % len(users))
     withcfg = [c for b in F.all_bodies(AG) if "::tests::" not in b.path and "histogram" in b.path for c in b.calls() if c.name == "with_config" and c.def_.startswith("histogram::")]
+    def cfg_terminals(body, op, seen):
+        """where a configuration value comes from, followed through parameters (to the callers) and through fields that keep it (to the
+        places that initialise them): {'cfg'} when every source is the shared configuration function"""
+        out = set()
+        for x in Prov(body).operand(op):
+            if x[0] == "call":
+                out.add("cfg" if body.term(x[1])["callee"]["name"] in CONFIG_FN else "other:" + str(body.term(x[1])["callee"].get("name")))
+            elif x[0] == "arg" and not x[2]:
+                k = (body.def_, x[1])
+                if k in seen:
+                    continue
+                seen.add(k)
+                ups = [u for u in F.callers_of(body.path, crates=[AG]) if "::tests::" not in u.body.path]
+                if not ups:
+                    out.add("other:no-caller")
+                for u in ups:
+                    out |= cfg_terminals(u.body, u.args[x[1] - 1], seen) if x[1] - 1 < len(u.args) else {"other:arity"}
+            elif x[0] == "arg" and x[2]:
+                fname = x[2][-1]
+                k = ("field", fname)
+                if k in seen:
+                    continue
+                seen.add(k)
+                inits = 0
+                for ob in F.all_bodies(AG):
+                    if "histogram" not in ob.path or "::tests::" in ob.path:
+                        continue
+                    for i_ in ob.live_blocks():
+                        for s_ in ob.stmts(i_):
+                            if s_["k"] == "assign" and s_["rv"]["k"] == "agg" and fname in (s_["rv"].get("fields") or []):
+                                inits += 1
+                                out |= cfg_terminals(ob, s_["rv"]["ops"][s_["rv"]["fields"].index(fname)], seen)
+                            elif s_["k"] == "assign" and s_["lhs"].get("p") and s_["lhs"]["p"][-1][0] == "f" and s_["lhs"]["p"][-1][2] == fname and s_["rv"]["k"] == "use":
+                                inits += 1
+                                out |= cfg_terminals(ob, s_["rv"]["op"], seen)
+                if not inits:
+                    out.add("other:field-never-set")
+            elif x[0] in ("const", "agg"):
+                out.add("other:" + x[0])
+        return out
     for c in withcfg:
-        o = Prov(c.body).operand(c.args[0])
-        ctx.check(any(x[0] == "call" and c.body.term(x[1])["callee"]["name"] in CONFIG_FN for x in o), "R11.2", fnkey(c.body) + "#uses-default-config", loc(c.body, c.bb),
-                  "a histogram is created with another configuration than default_histogram_config()")
+        terms = cfg_terminals(c.body, c.args[0], set())
+        ctx.check(terms == {"cfg"}, "R11.2", fnkey(c.body) + "#uses-default-config", loc(c.body, c.bb),
+                  "a histogram is created with another configuration than default_histogram_config() (sources: %s)" % sorted(terms))
     return EXPL
